@@ -380,11 +380,13 @@ where
     A: RingBuf<Item = T> + Send,
 {
 }
-// The channel is thread-safe as long as a thread-safe mutex is used
+// The channel is thread-safe as long as a thread-safe mutex is used and the
+// buffer, which gets mutated by whatever thread holds the lock, can be sent
+// to other threads.
 unsafe impl<MutexType: RawMutex + Sync, T: Send, A> Sync
     for GenericChannel<MutexType, T, A>
 where
-    A: RingBuf<Item = T>,
+    A: RingBuf<Item = T> + Send,
 {
 }
 
